@@ -1,7 +1,7 @@
 (* Crash/ProofsResumeAll.v — the resume clause of C13 for ALL histories (with the F6 repair in NewEngine):
    after any cut, restart and resumption of the same stream from the interrupted block, the store is equivalent to the
-   uninterrupted run's (same stored set, best pointer, quality records, finalized record) — except for the one cut class
-   "quality record written, finalized record pending", where exactly the finalized record lags. *)
+   uninterrupted run's (same stored set, best pointer, quality records, finalized record).  With the quality record and
+   the finalized record in one batch (F13 repair) there is no cut between them and no exception. *)
 From Coq Require Import List NArith Bool Lia.
 From Verif Require Import Crash.Model Crash.ProofsStore Crash.ProofsInv Crash.ProofsImport Crash.ProofsCrash
   Crash.ProofsEqv Crash.ProofsShape.
@@ -229,31 +229,17 @@ Section PendingCommit.
     - rewrite pc_repair_x; auto.
     - apply repair_one_nil. intros _.
       destruct Hc as [Hc1 _]. destruct M as (_ & _ & Mp & Mn & _).
-      destruct (commit_nonempty_at_storepoint c s3 x (b_parent b) (b_just b) (b_comm b) I3 Hc1) as (q & r & Er); auto.
-      { apply s3_stored_mono; auto. }
-      unfold cw, commit_writes. fold s3. fold x. rewrite Er, apply_writes_cons.
-      apply has_mono_writes; auto.
-      { intros w Hw. eapply commit_nd. fold x in Er. rewrite Er. right. exact Hw. }
-      eapply has_put_in with (v := VNum q); [left; reflexivity|intros o [<-|[]]; discriminate].
+      unfold cw, commit_writes. fold s3. apply commit_has_quality; auto. apply s3_stored_mono; auto.
     - apply pc_x_in_heads.
   Qed.
 End PendingCommit.
 
 (* ---- one import, every cut inside it *)
 
-(* the cut between the quality record and the finalized record: everything but the finalized record is in place *)
-Definition finalized_window (c : cfg) (s s' : store) (b : blk) (rest : list blk) (r : store) : Prop :=
-  exists f,
-    r = run c s' rest /\
-    (forall k, k <> KFinalized -> get s' k = get (run1 c s b) k) /\
-    get s' KFinalized = get s KFinalized /\
-    get (run1 c s b) KFinalized = Some (VId f).
-
 Theorem resume_within_import c s b rest j :
   wf_cfg2 c -> Inv2 c s -> wf_blk s b -> (j < length (import_batches c s b))%nat ->
   let s' := apply_writes s (firstn j (import_batches c s b)) in
-  exists r, resume c true s' (b :: rest) = Some r /\
-            (eqv r (run c s (b :: rest)) \/ finalized_window c s s' b rest r).
+  exists r, resume c true s' (b :: rest) = Some r /\ eqv r (run c s (b :: rest)).
 Proof.
   intros Hc2 I2 Hwf Hj s'. destruct Hc2 as [Hc HL]. pose proof (i2_inv c s I2) as I.
   pose proof (import_all_prefixes c s b Hc I Hwf) as AP.
@@ -265,7 +251,7 @@ Proof.
     + intros; eapply state_batches_aux; eauto.
     + exists []. rewrite app_nil_r. auto.
     + unfold s' in I'. rewrite E in I'. exact I'.
-    + exists r. split; [|left; auto]. unfold s'. rewrite E. exact Hr.
+    + exists r. split; auto. unfold s'. rewrite E. exact Hr.
   - set (sb := state_batches b (conf_of s b)) in *.
     set (ws := sb ++ [index_batch b (conf_of s b)]).
     set (bulk := block_bulk b (conf_of s b) ab).
@@ -279,7 +265,7 @@ Proof.
       * exists (bulk :: cw). exact EW.
       * unfold s' in I'. rewrite EW, firstn_app in I'. replace (j - length ws)%nat with 0%nat in I' by lia.
         cbn [firstn] in I'. rewrite app_nil_r in I'. exact I'.
-      * exists r. split; [|left; auto]. unfold s'. rewrite EW, firstn_app. replace (j - length ws)%nat with 0%nat by lia.
+      * exists r. split; auto. unfold s'. rewrite EW, firstn_app. replace (j - length ws)%nat with 0%nat by lia.
         cbn [firstn]. rewrite app_nil_r. exact Hr.
     + set (s3 := apply_writes s (pre_writes s b ab)).
       assert (Lpre : length (pre_writes s b ab) = S (length ws)) by (rewrite Epre, app_length; simpl; lia).
@@ -288,55 +274,24 @@ Proof.
         rewrite E, firstn_app, firstn_all, PeanoNat.Nat.sub_diag in X. cbn [firstn] in X. rewrite app_nil_r in X. exact X. }
       assert (Hx3 : stored s3 (b_id b) = true) by apply s3_stored_b.
       assert (Lw : length (import_batches c s b) = (S (length ws) + length cw)%nat) by (rewrite E, app_length, Lpre; reflexivity).
-      destruct (PeanoNat.Nat.eq_dec j (S (length ws))) as [Ej|Nj].
-      * (* right after the block bulk: the whole bft commit is pending *)
-        assert (Es' : s' = s3).
-        { assert (Ejp : j = length (pre_writes s b ab)) by lia.
-          unfold s', s3. rewrite E, Ejp, firstn_app, firstn_all, PeanoNat.Nat.sub_diag. cbn [firstn]. rewrite app_nil_r. reflexivity. }
-        assert (Hcw : cw <> []) by (intro X; rewrite X in Lw; simpl in Lw; lia).
-        rewrite Es'. rewrite resume_eq; auto. eexists; split; [reflexivity|]. left.
-        unfold s3. rewrite (pc_restart c s b ab (conj Hc HL) I2 M I3 Hcw).
-        cbn [run fold_left].
-        assert (Er1 : run1 c s b = apply_writes (apply_writes s (pre_writes s b ab)) (commit_writes c s b ab))
-          by (unfold run1; rewrite E; apply apply_writes_app).
-        rewrite <- Er1. rewrite (known_run1 c (run1 c s b) b).
-        { apply eqv_refl. }
-        rewrite Er1. unfold stored, get_summary. unfold commit_writes. rewrite commit_frame by discriminate. exact Hx3.
-      * (* after the quality record, before the finalized record *)
-        destruct (commit_shape c s3 (b_id b) (b_parent b) (b_just b) (b_comm b)) as [Ec|[(q & Ec & Hsp)|(q & f & Ec & Hsp)]];
-          fold s3 in Ec; change (writes_of_steps (commit_steps c s3 (b_id b) (b_parent b) (b_just b) (b_comm b))) with cw in Ec.
-        { rewrite Ec in Lw. simpl in Lw. lia. }
-        { rewrite Ec in Lw. simpl in Lw. lia. }
-        assert (Ej : j = S (S (length ws))) by (rewrite Ec in Lw; simpl in Lw; lia).
-        set (wq := [Put (KQuality (b_id b)) (VNum q)]) in *. set (wf := [Put KFinalized (VId f)]) in *.
-        assert (Es' : s' = apply_batch s3 wq).
-        { assert (Ejp : j = S (length (pre_writes s b ab))) by lia.
-          unfold s', s3. rewrite E. fold cw. rewrite Ec, Ejp, firstn_app.
-          replace (S (length (pre_writes s b ab)) - length (pre_writes s b ab))%nat with 1%nat by lia.
-          rewrite firstn_all2 by lia. cbn [firstn]. rewrite apply_writes_app. reflexivity. }
-        assert (Er1 : run1 c s b = apply_batch (apply_batch s3 wq) wf).
-        { unfold run1. rewrite E. fold cw. rewrite Ec, apply_writes_app. reflexivity. }
-        assert (Mono : forall k, is_head k = false -> has s3 k = true -> has (apply_batch s3 wq) k = true).
-        { intros k Hk Hh. apply has_mono; auto. intros o [<-|[]]; reflexivity. }
-        assert (Fr : forall k, (forall i, k <> KQuality i) -> get (apply_batch s3 wq) k = get s3 k).
-        { intros k Hk. apply get_frame. intros o [<-|[]] X. simpl in X. eapply Hk; eauto. }
-        assert (Q4 : Qinv c (apply_batch s3 wq)).
-        { intros id Hs Hspid. unfold stored, get_summary in Hs. rewrite Fr in Hs by discriminate.
-          destruct (s3_stored s b ab id Hs) as [->|Hold].
-          - eapply has_put_in with (v := VNum q); [left; reflexivity|intros o [<-|[]]; discriminate].
-          - apply Mono; auto. apply s3_mono; auto. apply (i2_q c s I2); auto. }
-        assert (H4 : Hinv (apply_batch s3 wq)).
-        { intros id Hh. unfold has in Hh. rewrite Fr in Hh by discriminate.
-          unfold stored, get_summary. rewrite Fr by discriminate.
-          destruct (s3_head s b ab id Hh) as [->|Hold]; [exact Hx3|]. apply s3_stored_mono. apply (i2_h c s I2); auto. }
-        rewrite Es' in *. rewrite resume_eq; auto. rewrite restart_store_noop; auto.
-        eexists; split; [reflexivity|]. right. exists f.
-        cbn [run fold_left]. rewrite known_run1.
-        2:{ unfold stored, get_summary. rewrite Fr by discriminate. exact Hx3. }
-        split; [reflexivity|]. split; [|split].
-        -- intros k Hk. rewrite Er1. symmetry. apply get_frame. intros o [<-|[]] X. simpl in X. congruence.
-        -- rewrite Fr by discriminate. unfold s3. apply s3_quality. right; auto.
-        -- rewrite Er1. unfold wf. rewrite get_apply_batch. simpl. destruct (key_eq_dec KFinalized KFinalized); congruence.
+      (* the commit is at most one batch: the only cut left is right after the block bulk *)
+      assert (Lcw : (length cw <= 1)%nat).
+      { destruct (commit_shape c s3 (b_id b) (b_parent b) (b_just b) (b_comm b)) as [Ec|[(q & Ec & _)|(q & f & Ec & _)]];
+          fold s3 in Ec; change (writes_of_steps (commit_steps c s3 (b_id b) (b_parent b) (b_just b) (b_comm b))) with cw in Ec;
+          rewrite Ec; simpl; lia. }
+      assert (Ej : j = S (length ws)) by lia.
+      assert (Es' : s' = s3).
+      { assert (Ejp : j = length (pre_writes s b ab)) by lia.
+        unfold s', s3. rewrite E, Ejp, firstn_app, firstn_all, PeanoNat.Nat.sub_diag. cbn [firstn]. rewrite app_nil_r. reflexivity. }
+      assert (Hcw : cw <> []) by (intro X; rewrite X in Lw; simpl in Lw; lia).
+      rewrite Es'. rewrite resume_eq; auto. eexists; split; [reflexivity|].
+      unfold s3. rewrite (pc_restart c s b ab (conj Hc HL) I2 M I3 Hcw).
+      cbn [run fold_left].
+      assert (Er1 : run1 c s b = apply_writes (apply_writes s (pre_writes s b ab)) (commit_writes c s b ab))
+        by (unfold run1; rewrite E; apply apply_writes_app).
+      rewrite <- Er1. rewrite (known_run1 c (run1 c s b) b).
+      { apply eqv_refl. }
+      rewrite Er1. unfold stored, get_summary. unfold commit_writes. rewrite commit_frame by discriminate. exact Hx3.
 Qed.
 
 (* ---- every history, every cut *)
@@ -374,12 +329,9 @@ Definition offset (c : cfg) (s : store) (l : list blk) (i : nat) : nat := length
 Definition cut_in_import (c : cfg) (s : store) (l : list blk) (k i : nat) : Prop :=
   (offset c s l i <= k)%nat /\ ((k < offset c s l (S i))%nat \/ i = length l).
 
-Theorem resume_converges_except c s0 hist k i :
+Theorem resume_converges c s0 hist k i :
   wf_cfg2 c -> Inv2 c s0 -> wf_hist c s0 hist -> cut_in_import c s0 hist k i ->
-  exists r, resume c true (crash c s0 hist k) (skipn i hist) = Some r /\
-    (eqv r (run c s0 hist) \/
-     exists b rest, skipn i hist = b :: rest /\
-                    finalized_window c (run c s0 (firstn i hist)) (crash c s0 hist k) b rest r).
+  exists r, resume c true (crash c s0 hist k) (skipn i hist) = Some r /\ eqv r (run c s0 hist).
 Proof.
   intros Hc I0 Hw [Hlo Hhi].
   set (si := run c s0 (firstn i hist)).
@@ -395,7 +347,7 @@ Proof.
     assert (Efin : si = run c s0 hist) by (unfold si; rewrite app_nil_r in Ehist; rewrite <- Ehist; reflexivity).
     rewrite Ecrash. simpl writes_of. rewrite firstn_nil. cbn [apply_writes fold_left].
     destruct Hc as [Hc HL]. rewrite resume_eq; auto using (i2_inv c si Ii).
-    eexists; split; [reflexivity|]. left. rewrite restart_store_noop by (apply Ii). cbn [run fold_left].
+    eexists; split; [reflexivity|]. rewrite restart_store_noop by (apply Ii). cbn [run fold_left].
     rewrite Efin. apply eqv_refl.
   - destruct Hhi as [Hhi|Hlen].
     2:{ exfalso. assert (length (skipn i hist) = 0%nat) by (rewrite skipn_length; lia). rewrite Esk in H. discriminate. }
@@ -408,11 +360,11 @@ Proof.
     { rewrite Ecrash. simpl writes_of. rewrite firstn_app. replace (j - length (import_batches c si b))%nat with 0%nat by lia.
       cbn [firstn]. rewrite app_nil_r. reflexivity. }
     destruct Hw2 as [Hwb _].
-    destruct (resume_within_import c si b rest j Hc Ii Hwb Hj) as (r & Hr & Hcase).
+    destruct (resume_within_import c si b rest j Hc Ii Hwb Hj) as (r & Hr & He).
     exists r. rewrite Ecr. split; auto.
     assert (Erun : run c si (b :: rest) = run c s0 hist).
     { unfold si. rewrite <- run_app, <- Ehist. reflexivity. }
-    destruct Hcase as [He|Hwin]; [left; rewrite <- Erun; auto|right]. exists b, rest. split; auto.
+    rewrite <- Erun. auto.
 Qed.
 
 (* what equivalence means for the observations the property names: same stored set, best block, quality records
@@ -420,12 +372,9 @@ Qed.
 Corollary resume_converges_observations c s0 hist k i :
   wf_cfg2 c -> Inv2 c s0 -> wf_hist c s0 hist -> cut_in_import c s0 hist k i ->
   exists r, resume c true (crash c s0 hist k) (skipn i hist) = Some r /\
-    ((get_id r KBest = get_id (run c s0 hist) KBest /\ finalized c r = finalized c (run c s0 hist) /\
-      (forall id, stored r id = stored (run c s0 hist) id) /\ (forall id, get_quality r id = get_quality (run c s0 hist) id))
-     \/ exists b rest, skipn i hist = b :: rest /\
-                       finalized_window c (run c s0 (firstn i hist)) (crash c s0 hist k) b rest r).
+    get_id r KBest = get_id (run c s0 hist) KBest /\ finalized c r = finalized c (run c s0 hist) /\
+    (forall id, stored r id = stored (run c s0 hist) id) /\ (forall id, get_quality r id = get_quality (run c s0 hist) id).
 Proof.
-  intros Hc I0 Hw Hcut. destruct (resume_converges_except c s0 hist k i Hc I0 Hw Hcut) as (r & Hr & [He|Hwin]).
-  - exists r. split; auto. left. apply eqv_observations. auto.
-  - exists r. split; auto.
+  intros Hc I0 Hw Hcut. destruct (resume_converges c s0 hist k i Hc I0 Hw Hcut) as (r & Hr & He).
+  exists r. split; auto. apply eqv_observations. auto.
 Qed.
